@@ -142,7 +142,7 @@ theorem WInv.decide {s : State} {w : Worker} (h : WInv s w) : WInv s (workerDeci
   · rename_i hst
     split
     · exact ⟨h.outLe, h.fillLe, h.has, trivial, h.run⟩
-    · exact ⟨h.outLe, h.fillLe, h.has, ⟨h.run hst, Nat.min_le_left _ _⟩, h.run⟩
+    · exact ⟨h.outLe, h.fillLe, h.has, ⟨h.run hst, Nat.le_refl _⟩, h.run⟩
 
 theorem workerDecide_hasOut (w : Worker) : (workerDecide w).hasOut = w.hasOut := by
   unfold workerDecide; split <;> (try split) <;> rfl
